@@ -207,6 +207,8 @@ fn relpath_probe() {
     let mut fails = 0usize;
     let prefixes = [
         "", "./", "src/", "src/lib/", "lib/", "lib/../", "src/../", "d/e/../", "d//e/", "lib/./", "../top/", "d/../lib/", "src/lib/../../",
+        // directories that do not exist (yet): below a real directory, below the symlinked one, and left again with ..
+        "d/new/", "lib/new/", "lib/new/deep/", "lib/new/../", "src/lib/new/",
     ];
     for cwd_rel in ["", "src", "d/e", "lib"] {
         let cwd = top.join(cwd_rel);
@@ -221,10 +223,34 @@ fn relpath_probe() {
                 };
                 // the directory the OS resolves the spelling's directory part to (skip spellings that leave the tree)
                 let dir_part = if absolute { format!("{}/{}", cwd.display(), pre) } else { format!("./{}", pre) };
-                let dir_phys = match fs::canonicalize(&dir_part) {
-                    Ok(d) => d,
-                    Err(_) => continue,
+                // Independent reference: the tree is known (its only symbolic link is top/lib -> top/src/lib), so the
+                // physical directory is computed from that table, component by component, without asking the OS.  This
+                // also covers directories that do not exist yet (non-strict resolution, as Python's os.path.realpath).
+                let dir_phys = {
+                    let mut p = if absolute { std::path::PathBuf::from("/") } else { cwd_phys.clone() };
+                    for c in std::path::Path::new(&dir_part).components() {
+                        match c {
+                            std::path::Component::RootDir | std::path::Component::Prefix(_) => p = std::path::PathBuf::from("/"),
+                            std::path::Component::CurDir => {}
+                            std::path::Component::ParentDir => {
+                                p.pop();
+                            }
+                            std::path::Component::Normal(n) => {
+                                p.push(n);
+                                if p == top.join("lib") {
+                                    p = top.join("src/lib");
+                                }
+                            }
+                        }
+                    }
+                    p
                 };
+                if !dir_phys.starts_with(&top) {
+                    continue; // spellings that leave the tree
+                }
+                if let Ok(os) = fs::canonicalize(&dir_part) {
+                    assert_eq!(os, dir_phys, "reference resolver disagrees with the OS on an existing directory");
+                }
                 let _ = &cwd_phys;
                 let t_phys = dir_phys.join("x");
                 // bases are physical directory spellings, as every call site supplies (Env::base, target_relpath's directory
